@@ -170,6 +170,12 @@ def recover_only(R, env, prog, sites, RULE):
                 okb = res is not None and res[0] == "call" and res[1] == "std::ops::Add::add" and {norm(res[2][0]), norm(res[2][1])} == {norm(("acc",)), norm(("field", ("field", ("elem",), "amount"), "amount"))}
                 if zero_ and okb:
                     return coll
+            if s_[0] == "call" and s_[1].endswith("Iterator::sum") and s_[2] and s_[2][0][0] == "call" and s_[2][0][1].endswith("Iterator::map") and len(s_[2][0][2]) == 2 and s_[2][0][2][1][0] == "closure":
+                # P.iter().map(|p| p.amount.amount).sum()
+                coll, clo = s_[2][0][2]
+                res = closure_result(prog, clo, params={2: ("elem",)})
+                if res is not None and norm(res) == norm(("field", ("field", ("elem",), "amount"), "amount")):
+                    return coll
         return None
 
     for t in trs:
